@@ -131,7 +131,7 @@ def gen_cfg(rng, prop, tier):
     targets = [None] * n
     if not big:
         if fam < 0.12:
-            classes = ["HLight"] * n
+            classes = [rng.choice(("HLight", "HLight", "HLightEq", "HLightBag", "HLightNo"))] * n
         elif fam < 0.36:
             for i in range(1, n):
                 if rng.random() < 0.3:
@@ -139,6 +139,9 @@ def gen_cfg(rng, prop, tier):
                     targets[i] = rng.randrange(i)
         elif fam < 0.44:
             classes = ["PNode"] * n
+        elif fam < 0.60:
+            # what users build on Node: value equality (hashable or not), container-like, always falsy
+            classes = [rng.choice(("HNodeEq", "HNodeUnhash", "HNodeBag", "HNodeNo"))] * n
     cfg["classes"] = classes
     cfg["targets"] = targets
     cfg["faults"] = rng.random() < 0.3  # moves between sessions may be aborted by a raising hook
@@ -498,7 +501,7 @@ def run(cfg, ops=None, rng=None):
     names = [nm(x) for x in cfg["names"]]
     classes = list(cfg.get("classes") or ["HNode"] * n0)
     targets = list(cfg.get("targets") or [None] * n0)
-    base_cls = "HLight" if classes[0] == "HLight" else ("PNode" if classes[0] == "PNode" else "HNode")
+    base_cls = classes[0]
     for i in range(n0):
         world.new(classes[i], names[i], target=None if targets[i] is None else world.nodes[targets[i]])
     for i, p in enumerate(cfg["parents"]):
